@@ -1,5 +1,42 @@
-From PV Require Import Lib.Base Model.Npc.
+(* C07 -- the NPC global p-value is an exact rank p-value: never zero, exactly valid.
+   Statements only; proofs in Proofs/NpcProofs.v, Lib/RankValid.v. *)
+From PV Require Import Lib.Base Model.Npc Proofs.NpcProofs.
 Open Scope Q_scope.
+
+(* with plus1=False each row's partial p-value in a column is #{rows at least as large}/B *)
+Theorem C07_row_pvalue_is_count : forall (col : list Q) (x : Q), (0 < length col)%nat ->
+  (qn (length col) - qn (S (count_lt col x)) + 1 + 2 * qn 0) / (qn 0 + qn (length col))
+  == qn (count_ge col x) / qn (length col).
+Proof. exact row_pvalue_is_count. Qed.
+Print Assumptions C07_row_pvalue_is_count.
+
+(* sim_npc (observed statistics = row 0 of the table, appended as the last row of distr, plus1=False): the
+   observed row's partial p-values coincide with the observed p-values, so the row counts itself and the
+   global p-value is at least 1/(reps+1): never 0 -- for Fisher, Tippett and every callable combiner *)
+Theorem C07_sim_npc_never_zero : forall (obs : list Q) (sims : list (list Q)) (c : comb) p ps,
+  (match c with Liptak _ => False | _ => True end) ->
+  sim_npc_table (obs :: sims) c = Ok (p, ps) -> 1 / (qn (length sims) + 1) <= p.
+Proof. exact sim_npc_counts_itself. Qed.
+Print Assumptions C07_sim_npc_never_zero.
+
+(* exact finite-sample validity: whatever the matrix, the combiner and the ties, among the B rows' combined
+   statistics at most k have at most k rows at least as large -- i.e. at most k rows would obtain a global
+   p-value <= k/B if they were the observed one *)
+Theorem C07_rank_pvalue_valid : forall (c : comb) (stats : list Q) (k : nat),
+  (length (filter (fun s => Nat.leb (length (filter (fun r => stat_ge c r s) stats)) k) stats) <= k)%nat.
+Proof. exact npc_rows_valid. Qed.
+Print Assumptions C07_rank_pvalue_valid.
+
+(* in general npc lies in [c/(B+c), 1] *)
+Theorem C07_npc_range : forall p d c plus1 v, (0 < length d)%nat -> npc p d c plus1 = Ok v ->
+  qn (if plus1 then 1 else 0)%nat / (qn (if plus1 then 1 else 0)%nat + qn (length d)) <= v <= 1.
+Proof. exact npc_range. Qed.
+Print Assumptions C07_npc_range.
+
 Theorem C07_npc_rejects_single_pvalue : forall p distr c plus1, (length p < 2)%nat -> npc p distr c plus1 = Err ValueError.
 Proof. intros p distr c plus1 H. unfold npc. apply Nat.ltb_lt in H. rewrite H. reflexivity. Qed.
 Print Assumptions C07_npc_rejects_single_pvalue.
+
+Example C07_nonvacuous :
+  sim_npc_table [[1; 2]; [1; 0]; [3; 2]; [0; 5]] Tippett = Ok (4 # 4, [3 # 4; 3 # 4]).
+Proof. vm_compute. reflexivity. Qed.
